@@ -250,12 +250,13 @@ func oneRun(o *kit.Out, r *kit.Rand, forceSaturated int) {
 	o.Count("distribution", dist)
 	o.AddStat("evaluations", int64(len(times)))
 	// started + dropped ties the requests to the values (plenty of instant workers: every request starts or is superseded)
-	// evaluations at or after callAt + runFor may have come after triggering stopped (the loop's
+	// evaluations at or after callAt + runFor - 15 ms may have come after triggering stopped (the loop's
 	// select picks at random between the cancellation and a tick that is ready too - with tiny
 	// intervals or a starved process that can happen several times in a row): the pool refuses those
+	// (triggering stops one iteration window - 10 ms - before max-duration; 15 ms are allowed for)
 	late := int64(0)
 	for _, tm := range times {
-		if tm >= callAt+int64(runFor) {
+		if tm >= callAt+int64(runFor)-int64(15*time.Millisecond) {
 			late++
 		}
 	}
